@@ -88,27 +88,58 @@ def term(v):
 # ------------------------------------------------------------------------------------------- generation
 def gen_cache_spec(rng, nmax=9, dependent_sources=True):
     n = rng.randint(2, nmax)
+    # a sixth of the plans are built around a dependent source with several predecessors, a reader and a plain dependent
+    # (the shapes in which its Barrier literal has 2x2, 2x1, 1x2, 3x1 ... neighbours)
+    dense = dependent_sources and rng.random() < 0.25
+    if dense:
+        n = max(n, 7)
     nodes = []
     i = 0
     while i < n:
         r = rng.random()
+        if dense and i == 1:
+            r = 0.28
+        boost = 2.0 if dense and i == 1 else 1.0
         prev = [nd["id"] for nd in nodes if nd["kind"] not in ("producer", "token")]
         if i == 0 or r < 0.18:
             nodes.append({"id": i, "kind": "source", "args": [], "deps": []})
-        elif r < 0.26 and dependent_sources and i + 2 < n:
-            # a producer call and the dependent source it writes (well-formed: private producer, single predecessor);
+        elif r < 0.30 and dependent_sources and i + 2 < n:
+            # a producer call and the dependent source it writes (well-formed: private producer);
             # sometimes with a plain literal used as an ordering token in between
             args = rng.sample(prev, min(len(prev), rng.choice([0, 1, 2])))
-            if rng.random() < 0.4:
-                nodes.append({"id": i, "kind": "producer", "args": sorted(args), "deps": [], "writes": i + 2})
-                nodes.append({"id": i + 1, "kind": "token", "args": [], "deps": [i]})
-                nodes.append({"id": i + 2, "kind": "dsource", "args": [], "deps": [i + 1]})
+            # a second predecessor of the source is well-formed only when the producer is ordered after it as well
+            # (otherwise the producer's write races with it and the source stays older than its ancestor): one of the
+            # producer's own arguments
+            extra = [rng.choice(args)] if args and rng.random() < 0.4 / boost else []
+            if args and i + 3 < n and rng.random() < 0.45 * boost:
+                # ... or an unstored call over some of the producer's arguments (it carries no time of its own)
+                nodes.append({"id": i, "kind": "call", "args": rng.sample(args, rng.randint(1, len(args))), "deps": []})
+                extra.append(i)
+                i += 1
+            pid = i
+            if rng.random() < 0.4 and i + 2 < n:
+                nodes.append({"id": pid, "kind": "producer", "args": sorted(args), "deps": [], "writes": pid + 2})
+                nodes.append({"id": pid + 1, "kind": "token", "args": [], "deps": [pid]})
+                nodes.append({"id": pid + 2, "kind": "dsource", "args": [], "deps": sorted(set(extra + [pid + 1]))})
                 i += 2
             else:
-                nodes.append({"id": i, "kind": "producer", "args": sorted(args), "deps": [], "writes": i + 1})
-                nodes.append({"id": i + 1, "kind": "dsource", "args": [], "deps": [i]})
+                nodes.append({"id": pid, "kind": "producer", "args": sorted(args), "deps": [], "writes": pid + 1})
+                nodes.append({"id": pid + 1, "kind": "dsource", "args": [], "deps": sorted(set(extra + [pid]))})
                 i += 1
-        elif r < 0.34:
+            if boost > 1 and i + 1 < n and rng.random() < 0.7:
+                i += 1
+                nodes.append({"id": i, "kind": "stored", "args": [i - 1], "deps": []})
+                prev = prev + [i]
+                i_ds = i - 1
+            else:
+                i_ds = i
+            if i + 1 < n and rng.random() < 0.5 * boost:
+                # something that merely depends on the dependent source (a successor of its Barrier besides the read)
+                ds = i_ds
+                a2 = [rng.choice(prev) for _ in range(rng.choice([1, 1, 2]))]
+                i += 1
+                nodes.append({"id": i, "kind": "stored" if rng.random() < 0.55 else "call", "args": a2, "deps": [ds]})
+        elif r < 0.37:
             deps = rng.sample(prev, min(len(prev), rng.choice([0, 1, 1, 2])))
             nodes.append({"id": i, "kind": "lit", "args": [], "deps": sorted(deps)})
         else:
